@@ -54,7 +54,8 @@ class _UFMat:
             core.CTX.side.append(self.last_cond)
             return Sym(v)
         # replay: a concrete positive, temperature dependent conductivity
-        base = {'clad': 22.0, 'gap': 60.0}.get(self.name, 15.0)
+        # replay: every material has its own conductivity function (a zone mix-up must be visible concretely)
+        base = {'clad': 22.0, 'gap': 60.0}.get(self.name, 15.0 + 4.0 * int(self.name[4:]) if self.name.startswith('fuel') else 15.0)
         return base * (1.0 + 2e-4 * (np.asarray(T, dtype=float) - 700.0)) + 0.0 * np.asarray(T, dtype=float)
 
     def update(self, T):
